@@ -330,7 +330,7 @@ struct DiscConn {
     /// terminal event per endpoint: (global ns, what)
     terminal: BTreeMap<usize, (u64, String)>,
     /// payloads delivered per receiving endpoint
-    delivered: BTreeMap<usize, BTreeSet<Vec<u8>>>,
+    delivered: BTreeMap<usize, BTreeMap<Vec<u8>, u64>>,
     /// last time each endpoint consumed a data/ack/sync frame from the other
     last_heard_ns: BTreeMap<usize, u64>,
     connected: BTreeSet<usize>,
@@ -432,7 +432,7 @@ impl Oracle for DisconnectOracle {
                         c.last_heard_ns.insert(*ep, *t_ns);
                     }
                     AppEvent::Receive(p) => {
-                        c.delivered.entry(*ep).or_default().insert((**p).clone());
+                        *c.delivered.entry(*ep).or_default().entry((**p).clone()).or_insert(0) += 1;
                     }
                     AppEvent::Disconnect => {
                         c.terminal.entry(*ep).or_insert((*t_ns, "Disconnect".into()));
@@ -444,11 +444,15 @@ impl Oracle for DisconnectOracle {
                             self.flush_checked += 1;
                             let got = c.delivered.get(ep).cloned().unwrap_or_default();
                             if let Some(list) = c.reliable_before.get(&caller) {
+                                // identical payloads (empty packets) are matched by count
+                                let mut need: BTreeMap<&[u8], u64> = BTreeMap::new();
                                 for (i, p) in list.iter().enumerate() {
-                                    if !got.contains(&**p) {
+                                    let n = need.entry(&p[..]).or_insert(0);
+                                    *n += 1;
+                                    if got.get(&**p).cloned().unwrap_or(0) < *n {
                                         let d = format!(
                                             "endpoint {} saw Disconnect although Reliable packet #{} ({} bytes, {:?}) that endpoint {} submitted before calling disconnect() had not been delivered to it ({} of {} delivered)",
-                                            ep, i, p.len(), parse_payload(p).map(|h| h.3), caller, list.iter().filter(|q| got.contains(&***q)).count(), list.len());
+                                            ep, i, p.len(), parse_payload(p).map(|h| h.3), caller, list.iter().filter(|q| got.contains_key(&***q)).count(), list.len());
                                         return viol(prop, "disconnect_before_reliable_data", d, *call);
                                     }
                                 }
